@@ -784,7 +784,7 @@ class Slicer:
         if k == 'cast':
             return self.operand(fn, rv[2])
         if k == 'bin':
-            return self.operand(fn, rv[2]) | self.operand(fn, rv[3]) | {('OP', rv[1])}
+            return self.operand(fn, rv[2]) | self.operand(fn, rv[3]) | {('OP', norm_op(rv[1]))}
         if k == 'un':
             return self.operand(fn, rv[2])
         if k == 'discr':
@@ -799,6 +799,76 @@ class Slicer:
         if k == 'repeat':
             return self.operand(fn, rv[1])
         return set()
+
+
+def norm_op(o):
+    return o.replace('WithOverflow', '').replace('Unchecked', '')
+
+
+ARITH_CALLS = {'add': 'Add', 'sub': 'Sub', 'mul': 'Mul', 'div': 'Div', 'rem': 'Rem', 'neg': 'Neg',
+               'add_assign': 'Add', 'sub_assign': 'Sub', 'mul_assign': 'Mul', 'div_assign': 'Div',
+               'checked_add': 'Add', 'checked_sub': 'Sub', 'checked_mul': 'Mul', 'saturating_sub': 'Sub', 'saturating_add': 'Add',
+               'div_floor': 'Div', 'div_ceil': 'Div', 'min': 'Min', 'max': 'Max'}
+
+
+def expr_ops(prog, fn, op, depth=0, seen=None):
+    """operators and literals of the *expression tree* of an operand: walks back through single-definition temporaries
+    only and stops at field reads, user variables with several definitions and calls into workspace code. Used to pin the
+    arithmetic shape of a comparison operand (x vs x+1) without the noise of flow-insensitive slices."""
+    out = set()
+    seen = seen if seen is not None else set()
+    if depth > 12:
+        return out
+    if op[0] == 'k':
+        if 'val' in op[1]:
+            out.add(('V', op[1]['val']))
+        return out
+    if op[0] not in ('c', 'm'):
+        return out
+    pl = op[1]
+    for p in pl[1]:
+        if isinstance(p, list) and p[0] == 'f' and p[2] != 'tuple':
+            return out      # a field read: leaf
+    l = pl[0]
+    if (fn.id, l) in seen:
+        return out
+    seen.add((fn.id, l))
+    ds = [d for d in fn.defs.get(l, []) if d[0] in ('=', 'call')]
+    if len(ds) != 1:
+        return out
+    d = ds[0]
+    if d[0] == '=':
+        rv = d[4]
+        if d[3][1]:
+            return out
+        k = rv[0]
+        if k == 'use':
+            return expr_ops(prog, fn, rv[1], depth + 1, seen)
+        if k == 'cast':
+            return expr_ops(prog, fn, rv[2], depth + 1, seen)
+        if k == 'bin':
+            o = norm_op(rv[1])
+            if o not in ('Lt', 'Le', 'Gt', 'Ge', 'Eq', 'Ne'):
+                out.add(('OP', o))
+            return out | expr_ops(prog, fn, rv[2], depth + 1, seen) | expr_ops(prog, fn, rv[3], depth + 1, seen)
+        if k == 'un':
+            out.add(('OP', rv[1]))
+            return out | expr_ops(prog, fn, rv[2], depth + 1, seen)
+        if k in ('ref', 'rawptr'):
+            return expr_ops(prog, fn, ['c', rv[2]], depth + 1, seen)
+        if k == 'cfd':
+            return expr_ops(prog, fn, ['c', rv[1]], depth + 1, seen)
+        return out
+    c = d[2]
+    cal = c.callee or ''
+    if cal in prog.fns or cal.startswith('fil_actor') or (c.defp or '').startswith('fil_actors_runtime::runtime::'):
+        return out
+    last = (c.defp or cal).split('::')[-1]
+    if last in ARITH_CALLS:
+        out.add(('OP', ARITH_CALLS[last]))
+    for a in c.args:
+        out |= expr_ops(prog, fn, a, depth + 1, seen)
+    return out
 
 
 def atom_str(a):
@@ -958,7 +1028,7 @@ def _cond_of_local(fn, slicer, bi, l, t, neg, depth):
             rel = BINOP[rv[1]]
             A = slicer.operand(fn, rv[2])
             B = slicer.operand(fn, rv[3])
-            return _mk_rel(fn, bi, rel, A, B, t, neg)
+            return _mk_rel(fn, bi, rel, A, B, t, neg, ops=(expr_ops(slicer.prog, fn, rv[2]), expr_ops(slicer.prog, fn, rv[3])))
         if rv[0] == 'un' and rv[1] == 'Not' and rv[2][0] in ('m', 'c') and not rv[2][1][1]:
             return _cond_of_local(fn, slicer, bi, rv[2][1][0], t, not neg, depth + 1)
         if rv[0] == 'use' and rv[1][0] in ('m', 'c') and not rv[1][1][1]:
@@ -1001,13 +1071,13 @@ def _cond_of_local(fn, slicer, bi, l, t, neg, depth):
             rel = CMP_TRAIT.get(cal) or CMP_TRAIT.get(call.callee)
             A = slicer.operand(fn, call.args[0])
             B = slicer.operand(fn, call.args[1])
-            return _mk_rel(fn, bi, rel, A, B, t, neg, line=call.line)
+            return _mk_rel(fn, bi, rel, A, B, t, neg, line=call.line, ops=(expr_ops(slicer.prog, fn, call.args[0]), expr_ops(slicer.prog, fn, call.args[1])))
         # resolved impl of PartialEq/PartialOrd: `<T as PartialOrd>::lt`
         m = re.search(r'as core::cmp::Partial(Ord|Eq)(<.*>)?>::(lt|le|gt|ge|eq|ne)$', call.callee or '')
         if m and len(call.args) == 2:
             A = slicer.operand(fn, call.args[0])
             B = slicer.operand(fn, call.args[1])
-            return _mk_rel(fn, bi, m.group(3), A, B, t, neg, line=call.line)
+            return _mk_rel(fn, bi, m.group(3), A, B, t, neg, line=call.line, ops=(expr_ops(slicer.prog, fn, call.args[0]), expr_ops(slicer.prog, fn, call.args[1])))
         if fn.locals[l][0] == 'bool':
             c = Cond(fn, bi, 'pred')
             c.pred = call.callee
@@ -1022,13 +1092,17 @@ def _cond_of_local(fn, slicer, bi, l, t, neg, depth):
     return None
 
 
-def _mk_rel(fn, bi, rel, A, B, t, neg, line=None):
+def _mk_rel(fn, bi, rel, A, B, t, neg, line=None, ops=(frozenset(), frozenset())):
     c = Cond(fn, bi, 'rel')
     arms = _bool_arms(t, neg)
+    oa, ob = ops
     # canonical: only lt / le / eq / ne ; gt,ge -> swap operands
     if rel in ('gt', 'ge'):
         rel = SWAP[rel]
         A, B = B, A
+        oa, ob = ob, oa
+    c.opsA = oa
+    c.opsB = ob
     c.rel = rel
     c.A = A
     c.B = B
